@@ -24,7 +24,7 @@ OWNERS = ["User1", "User2", "admin", "www", "", "ünï"]
 DATA_IDS = ["DatabaseData", "DataFromServer1", "secret", "", "Data x", "üñí"]
 
 PRIVATE_BASES = ["192.168.%d.0/24", "10.%d.0.0/24", "172.%d.8.0/24", "192.168.%d.0/26", "10.0.%d.0/25", "192.168.%d.0/23", "10.%d.0.0/16"]
-PUBLIC_NETS = ["213.47.23.192/26", "8.8.8.0/24", "130.149.7.0/28", "100.64.3.0/24"]
+PUBLIC_NETS = ["213.47.23.192/26", "8.8.8.0/24", "130.149.7.0/28", "100.64.3.0/24", "203.0.113.0/24", "198.51.100.0/25", "192.0.2.0/24", "198.18.4.0/24"]
 
 
 def gen_scenario(rng: random.Random, max_nodes=6, one_spelling=False):
